@@ -145,3 +145,30 @@ def exc_kind(e: BaseException):
         e = e.__cause__
         seen += 1
     return out
+
+
+def chk(tag, k, args):
+    """lin, but raising UserExc when an argument is negative: failure is decided by the arguments alone"""
+    CALLS.append((tag, list(args)))
+    if any(a < 0 for a in args):
+        raise UserExc(tag)
+    return (k + sum((i + 1) * a for i, a in enumerate(args))) % M
+
+
+@as_function_node("y")
+def Chk1(tag, k, a):
+    return chk(tag, k, [a])
+
+
+@as_function_node("y")
+def Chk2(tag, k, a, b):
+    return chk(tag, k, [a, b])
+
+import logging as _logging
+_logging.getLogger("concurrent.futures").setLevel(_logging.CRITICAL)   # "exception calling callback" noise (see C06/S6)
+
+
+@as_function_node("y")
+def Chk1x(tag, k, a):
+    """same interface as Chk1, different function (for replacements)"""
+    return (chk(tag, k, [a]) + 1000) % M
